@@ -1105,6 +1105,21 @@ pub fn c14_scenarios(ns: &[u64], spins: &[(usize, usize)]) -> Vec<Scn> {
             ];
             s.hang_probe = Some(S1);
             out.push(s);
+            // the sibling takes the value and leaves while the first handle is
+            // inside its own (failing) try_recv: that handle is the sole consumer
+            // when it returns, but it did pin the slot the sender was refused for
+            let mut s = Scn::new("c14-sink-vs-direct-tryrecv-vs-sibling-recv-and-drop", cfg);
+            // (the one-shot receives may both come too early and leave the queue
+            // full for good: the probe send tells that case apart)
+            s.prefix = vec![opd(CloneH, R0, R1), opd(CloneH, S0, S1)];
+            s.hang_probe = Some(S1);
+            s.threads = vec![
+                vec![opv(SinkSend, S0, 1), opv(SinkSend, S0, 2), op(DropH, S0)],
+                vec![op(TryRecv, R0)],
+                vec![op(TryRecv, R1), op(DropH, R1)],
+            ];
+            s.slow = 1;
+            out.push(s);
             // receiver is dropped while the sink is parked (other stream remains)
             let mut s = Scn::new("c14-sink-parked-vs-stream-removed", cfg);
             s.prefix = vec![opd(AddStream, R0, R1)];
@@ -1574,14 +1589,16 @@ pub enum Role {
     CS,
     CV,
     IT,
+    RD,
+    AS0,
 }
 
 pub fn matrix_scenarios(fl: Flavour, n: u64, max_roles: usize) -> Vec<Scn> {
     use Role::*;
     let roles: Vec<Role> = if fl == Flavour::B {
-        vec![P1, P2, C1, C2, C3, V, DS, DR, DL, DL2, D0, UL, AS, AS2, CL, CL2, UC, CS, CV, IT]
+        vec![P1, P2, C1, C2, C3, V, DS, DR, DL, DL2, D0, UL, AS, AS2, CL, CL2, UC, CS, CV, IT, RD, AS0]
     } else {
-        vec![P1, P2, C1, C2, DS, DR, D0, CL, CL2, UC, CS, IT]
+        vec![P1, P2, C1, C2, DS, DR, D0, CL, CL2, UC, CS, IT, RD]
     };
     let ops_of = |r: Role, base: u32| -> Vec<Op> {
         match r {
@@ -1606,6 +1623,12 @@ pub fn matrix_scenarios(fl: Flavour, n: u64, max_roles: usize) -> Vec<Scn> {
             CV => vec![op(IntoSingle, 17), op(IntoMulti, 17)],
             // the borrowing iterator on a handle of the main stream
             IT => vec![op(TryIterE, 23)],
+            // a handle of the main stream takes a value and leaves at once (the
+            // consumer count of the stream goes 2 -> 1 right after a receive)
+            RD => vec![op(TryRecv, 24), op(DropH, 24)],
+            // add_stream called on the primary handle itself (with RD the parent
+            // stream has exactly two handles and loses one during the call)
+            AS0 => vec![opd(AddStream, 1, 25), op(TryRecv, 25)],
         }
     };
     // what each role needs in the prefix: (op creating its handle)
@@ -1629,6 +1652,8 @@ pub fn matrix_scenarios(fl: Flavour, n: u64, max_roles: usize) -> Vec<Scn> {
             D0 => vec![],
             CV => vec![opd(AddStream, 1, 17)],
             IT => vec![opd(CloneH, 1, 23)],
+            RD => vec![opd(CloneH, 1, 24)],
+            AS0 => vec![],
         }
     };
     let mut combos: Vec<Vec<Role>> = Vec::new();
@@ -1650,6 +1675,9 @@ pub fn matrix_scenarios(fl: Flavour, n: u64, max_roles: usize) -> Vec<Scn> {
         if combo.contains(&D0) && combo.contains(&C1) {
             continue; // both use the primary receiver handle
         }
+        if combo.contains(&AS0) && (combo.contains(&C1) || combo.contains(&D0)) {
+            continue; // the primary receiver handle again
+        }
         if combo.contains(&CL2) && !combo.contains(&CL) {
             continue; // a second cloner only matters next to the first
         }
@@ -1657,8 +1685,8 @@ pub fn matrix_scenarios(fl: Flavour, n: u64, max_roles: usize) -> Vec<Scn> {
             continue; // the second handle of that stream only matters with the first
         }
         // at least one role must move values, or two must change the stream set
-        let traffic = combo.iter().any(|r| matches!(r, P1 | P2 | C1 | C2 | C3 | V | CS | AS | D0 | IT));
-        let structural_pair = combo.len() == 2 || combo.iter().filter(|r| matches!(r, CL | CL2 | UC | DR | DL | DL2 | UL | AS | AS2 | CV)).count() >= 2;
+        let traffic = combo.iter().any(|r| matches!(r, P1 | P2 | C1 | C2 | C3 | V | CS | AS | D0 | IT | RD | AS0));
+        let structural_pair = combo.len() == 2 || combo.iter().filter(|r| matches!(r, CL | CL2 | UC | DR | DL | DL2 | UL | AS | AS2 | CV | AS0)).count() >= 2;
         if !traffic && !structural_pair {
             continue;
         }
